@@ -72,7 +72,12 @@ def run_seed(seed, lane):
         nf = "no-failing-input-found" in txt and not sigs
         out["checks"][p] = {"rc": rc, "summary": summ[-1] if summ else txt.strip().splitlines()[-1:] and txt.strip().splitlines()[-1],
                             "sigs": sigs, "kinds": sorted(kinds), "no_failing_input_found": nf}
-        if rc == 1: caught = True
+        complete = bool(summ) and "CHECK-DID-NOT-COMPLETE" not in txt
+        out["checks"][p]["completed"] = complete
+        if not complete:
+            out["checks"][p]["rc"] = None
+            out["checks"][p]["summary"] = "check did not complete: " + " / ".join(txt.strip().splitlines()[-4:])[:400]
+        elif rc == 1 and "VIOLATION property=" in txt: caught = True
     out["caught"] = caught
     json.dump(out, open(f"{d}/detection.json", "w"), indent=1)
     with lock:
